@@ -222,6 +222,12 @@ class ConcatenatedDrillhole(ConcatenatedObject, Drillhole):
                     if isinstance(property_group, str) and group.name != property_group:
                         continue
 
+                    if (
+                        isinstance(property_group, ConcatenatedPropertyGroup)
+                        and group is not property_group
+                    ):
+                        continue
+
                     return group
 
         ind = 0
